@@ -149,6 +149,10 @@ impl MsgCase {
             "trunc" => reframe(&self.msg, (self.bs, self.be), &body[..num(1).min(body.len())]),
             "append" => { let mut b2 = body.to_vec(); b2.extend(Rng::new(self.seed ^ 0xadd).bytes(num(1))); reframe(&self.msg, (self.bs, self.be), &b2) }
             "cut" => self.msg[..num(1).min(self.msg.len())].to_vec(),
+            // the last n octets of the container (final tag / MDC packet) once more behind it
+            "duptail" => { let n = num(1).min(body.len()); let mut b2 = body.to_vec(); b2.extend_from_slice(&body[body.len() - n..]); reframe(&self.msg, (self.bs, self.be), &b2) }
+            // n octets slipped in 16 octets before the end of the container
+            "insert" => { let at = body.len().saturating_sub(16); let mut b2 = body[..at].to_vec(); b2.extend(Rng::new(self.seed ^ 0x1e5).bytes(num(1))); b2.extend_from_slice(&body[at..]); reframe(&self.msg, (self.bs, self.be), &b2) }
             _ => self.msg.clone(),
         }
     }
@@ -299,6 +303,7 @@ impl Ctx {
         cuts.retain(|c| *c >= 1 && *c < blen); cuts.sort(); cuts.dedup();
         for c in cuts { for &mode in modes { self.msg_case(&m, &format!("trunc:{c}"), mode, &format!("{cls}-truncate-m{mode}")); } }
         for extra in [1usize, 16, 22, 23] { for &mode in modes { self.msg_case(&m, &format!("append:{extra}"), mode, &format!("{cls}-append-m{mode}")); } }
+        for what in ["duptail:16", "duptail:22", "insert:1", "insert:16"] { for &mode in modes { self.msg_case(&m, what, mode, &format!("{cls}-tail-m{mode}")); } }
         // the message simply cut off inside the container
         for c in [m.bs + 1, m.bs + blen / 2, m.be - 1] { if c < m.msg.len() { for &mode in modes { self.msg_case(&m, &format!("cut:{c}"), mode, &format!("{cls}-cut-m{mode}")); } } }
     }
@@ -327,6 +332,14 @@ impl Ctx {
         let mut cut = 0;
         while cut < ct.len() { self.v2_case(p, &ct[..cut], &plain, true, &format!("{cls}-truncate")); cut += if cut % ec < 3 || cut % ec > ec - 3 || ct.len() - cut < 40 { 1 } else { step }; }
         for extra in [1usize, 15, 16, 17, ec] { let mut v = ct.clone(); v.extend(self.rng.bytes(extra)); self.v2_case(p, &v, &plain, true, &format!("{cls}-append")); }
+        // octets slipped in between the last chunk and the final tag (1, 15, 16, 17 random octets; a copy of the final
+        // tag, i.e. the final tag duplicated; a copy of the last chunk's own tag)
+        if ct.len() >= 16 {
+            let (body0, tag0) = ct.split_at(ct.len() - 16);
+            for ins in [1usize, 15, 16, 17] { let mut v = body0.to_vec(); v.extend(self.rng.bytes(ins)); v.extend_from_slice(tag0); self.v2_case(p, &v, &plain, true, &format!("{cls}-insert-before-final-tag")); }
+            { let mut v = ct.clone(); v.extend_from_slice(tag0); self.v2_case(p, &v, &plain, true, &format!("{cls}-final-tag-duplicated")); }
+            if body0.len() >= 16 { let mut v = body0.to_vec(); v.extend_from_slice(&body0[body0.len() - 16..]); v.extend_from_slice(tag0); self.v2_case(p, &v, &plain, true, &format!("{cls}-chunk-tag-duplicated")); }
+        }
         // chunk level: drop, duplicate, swap, final tag only, drop final tag
         let body = &ct[..ct.len() - 16];
         let tag = &ct[ct.len() - 16..];
